@@ -551,6 +551,7 @@ pub fn feed_ops(src: &mut Src, seq: &str, kind: u32, chunk: u32, out: &mut Vec<O
     } else {
         seq
     };
+    let before = out.len();
     if kind == 0 {
         if src.chance(chunk) {
             chunk_str(src, seq, out);
@@ -563,6 +564,19 @@ pub fn feed_ops(src: &mut Src, seq: &str, kind: u32, chunk: u32, out: &mut Vec<O
             chunk_bytes(src, &b, out);
         } else {
             out.push(Op::FeedBytes(b));
+        }
+    }
+    // rarely the decoding mode is switched between two chunks of the same sequence (and back)
+    if out.len() > before + 1 && src.chance(8) {
+        let at = before + 1 + src.below((out.len() - before - 1) as u32) as usize;
+        if kind == 0 {
+            let flip = src.chance(128);
+            out.insert(at, Op::SetUtf8(flip));
+            out.push(Op::SetUtf8(true));
+        } else {
+            let (a, b) = if kind == 2 { ("G", "@") } else { ("@", "G") };
+            out.insert(at, Op::SelCharset(a.into()));
+            out.push(Op::SelCharset(b.into()));
         }
     }
 }
@@ -839,7 +853,7 @@ pub fn utf8_soup(src: &mut Src, max_items: u32) -> Vec<u8> {
             6 => v.extend_from_slice(src.pick::<&[u8]>(&[
                 b"\xc3", b"\xe4", b"\xe4\xb8", b"\xf0", b"\xf0\x9f", b"\xf0\x9f\x98", b"\xe2\x82",
             ])),
-            7 => v.extend_from_slice(b"\xef\xbb\xbf"),
+            7 => v.extend_from_slice(src.pick::<&[u8]>(&[b"\xef\xbb\xbf", b"\xef\xbb\xbf", b"\xff\xfe", b"\xfe\xff", b"\xff\xfe\x00\x00", b"\xef\xbb"])),
             8 => v.push(src.byte()),
             9 => v.extend_from_slice(src.pick::<&[u8]>(&[
                 b"\x1b[2J", b"\x1b[1;2H", b"\r\n", b"\x1b]2;t\x07", b"\x1b[31m", b"\x1b[", b"\x1b",
